@@ -180,6 +180,28 @@ class _Blank:
     pass
 
 
+_NOSAMPLE = object()
+_KEY_POOL = [None, "", "p", "q", "xml", "xmlns", "1a", "a:b", "ns0", "ns1"]
+_URI_POOL = ["", "urn:a", "urn:b", "http://www.w3.org/XML/1998/namespace", "http://www.w3.org/2001/XMLSchema-instance"]
+
+
+def _sample_sort(rng, spec):
+    """A small random value of a parameter sort that no pre-condition defines (strings, ints, prefix maps)."""
+    spec = spec.strip()
+    if spec == "str":
+        return rng.choice(_STR_POOL + _KEY_POOL[2:] + _URI_POOL)
+    if spec == "str|None":
+        return rng.choice([None] + _STR_POOL + _URI_POOL)
+    if spec == "int":
+        return rng.choice([0, 1, 2, -1, 7, 59, 60, 1000])
+    if spec == "bool":
+        return rng.random() < 0.5
+    if spec in ("dict[str|None,str]", "dict[str,str]"):
+        keys = [k for k in _KEY_POOL if k is not None] if spec == "dict[str,str]" else _KEY_POOL
+        return {rng.choice(keys): rng.choice(_URI_POOL) for _ in range(rng.randint(0, 4))}
+    return _NOSAMPLE
+
+
 def search(key, requires, ghost, params, raises, ensures, tries=400, seed=0, first=None):
     """Sample the ghost parameters of a contract, derive the arguments from its defining pre-conditions
     (``<param> == <expression over ghosts>``), keep the samples that satisfy every pre-condition natively, call
@@ -227,6 +249,10 @@ def _search(key, requires, ghost, params, raises, ensures, tries, seed, first):
                 env[g] = rng.random() < 0.5
             else:
                 env[g] = None
+        if first and trial == 0:
+            for k, v in first.items():
+                if k in params and k not in ghost and k != "self":
+                    env[k] = _materialise(v)  # the solver's value for a parameter no pre-condition defines
         obj = None
         if "self" in params:
             obj = _Blank()
@@ -251,6 +277,10 @@ def _search(key, requires, ghost, params, raises, ensures, tries, seed, first):
         for name, spec in params.items():
             if name not in env and not isinstance(spec, str):
                 env[name] = spec  # a literal argument of the variant (digits=2, max_digits=9, ...)
+            elif name not in env and isinstance(spec, str):
+                v = _sample_sort(rng, spec)
+                if v is not _NOSAMPLE:
+                    env[name] = v
         try:
             ok = all(eval_clause(r, env, env) for r in requires)
         except Exception:
